@@ -24,6 +24,7 @@ import (
 //   R-via-handler      the dispatch is HTTPReqHandler.Handle; (*http.Client).Do only on the handler==nil edge
 //   R-path             sibling agreement per transport: if any builder applies the configured path, all do
 //   R-session-header   sibling agreement per transport: if any builder sets Mcp-Session-Id, all do
+//   R-url-verbatim      the request address is the configured URL rendered verbatim
 func init() { Registry["C19"] = checkC19 }
 
 type builder struct {
